@@ -12,6 +12,7 @@ package main
 
 import (
 	"bytes"
+	"encoding/hex"
 	"fmt"
 	"math/rand"
 	"strings"
@@ -110,9 +111,12 @@ func c05WindowRun(x *c05F, work string, rng *rand.Rand, api bool, k c05WinKind) 
 		at := x.rec.length()
 		x.tout(st.chunk)
 		var got []string
+		x.winChunks = append(x.winChunks, st.chunk)
 		for _, it := range x.rec.snapshot()[at:] {
 			if it[0] == 't' {
 				got = append(got, it)
+				b, _ := hex.DecodeString(strings.TrimPrefix(it[1:], "-"))
+				x.winShown = append(x.winShown, b)
 			}
 		}
 		if st.want == nil && len(got) != 0 {
@@ -147,7 +151,9 @@ func c05WindowRun(x *c05F, work string, rng *rand.Rand, api bool, k c05WinKind) 
 		// DIRECT ORACLE: exactly one transfer per fresh trigger
 		x.waitFor('s', []byte("#ACT:"), from, 2*time.Second)
 		time.Sleep(200 * time.Millisecond)
-		if n := bytes.Count(x.rec.bytesSince(from, 's'), []byte("#ACT:")); n != 1 && res == "" {
+		x.winActs = bytes.Count(x.rec.bytesSince(from, 's'), []byte("#ACT:"))
+		x.winOK = true
+		if n := x.winActs; n != 1 && res == "" {
 			res = fmt.Sprintf("WINDOW: a fresh trigger (%s) started %d transfers, exactly 1 expected; the server got %q", k.name, n, x.rec.bytesSince(from, 's'))
 		}
 		if res != "" {
@@ -164,6 +170,7 @@ func c05WindowRun(x *c05F, work string, rng *rand.Rand, api bool, k c05WinKind) 
 		time.Sleep(3300 * time.Millisecond)
 		return ""
 	}
+	x.winOK = true
 	if res != "" {
 		return res
 	}
